@@ -168,7 +168,7 @@ fn field_values() -> Vec<(&'static str, Vec<Box<dyn Fn(&mut FullCfg) + Send + Sy
         // with the experimental estimator compiled in, the step count is a running time, not a range to
         // verify: unbounded values are only meaningful where verification must reject them
         us("mae_steps", if cfg!(feature = "experimental") { &[0, 1, 2] } else { &[0, 1, 2, usize::MAX] }, |c, x| c.mae_steps = x),
-        us("workers", &[0, 1, 2, 3], |c, x| c.workers = x),
+        us("workers", &[0, 1, 2, 3, 300, BIG + 1, usize::MAX], |c, x| c.workers = x),
     ];
     let parts: Vec<Option<usize>> = vec![None, Some(0), Some(1), Some(2), Some(16), Some(64), Some(65), Some(128), Some(BIG + 16), Some(usize::MAX)];
     v.push(("order_sel", parts.into_iter().map(|p| Box::new(move |c: &mut FullCfg| c.approx_ent_partitions = p) as Box<dyn Fn(&mut FullCfg) + Send + Sync>).collect()));
@@ -351,6 +351,12 @@ fn check_config(rep: &Report, local: &mut Local, fc: &FullCfg, probes: &[Case]) 
         }
         // accepted configurations (in range or not) must never make the encoder panic; out-of-range
         // ones are already reported above, so only in-range ones are probed for losslessness
+        if bad.is_empty() && fc.multithread && fc.workers > 1024 && std::env::var_os("VERIF_C07_CHILD").is_none() {
+            // a worker count the machine cannot serve: an allocation failure aborts the process instead of
+            // unwinding, so this configuration is probed in a child process (this same check, replayed)
+            isolated_probe(rep, local, fc, &cj, w + 10);
+            return;
+        }
         if bad.is_empty() {
             for p in probes {
                 run_probe(rep, local, fc, &vc, p, p.input.bs as usize, &cj, w + 10);
@@ -364,6 +370,52 @@ fn check_config(rep: &Report, local: &mut Local, fc: &FullCfg, probes: &[Case]) 
             }
         }
     }
+}
+
+/// Runs `check_config` for one configuration in a child process and reports what it reported, or
+/// that it died.
+fn isolated_probe(rep: &Report, local: &mut Local, fc: &FullCfg, cj: &dyn Fn() -> Value, w: u64) {
+    static N: std::sync::atomic::AtomicUsize = std::sync::atomic::AtomicUsize::new(0);
+    let k = N.fetch_add(1, std::sync::atomic::Ordering::SeqCst);
+    let dir = std::env::temp_dir().join(format!("seqx-c07-{}-{k}", std::process::id()));
+    let _ = std::fs::create_dir_all(&dir);
+    let (case_f, rep_f) = (dir.join("case.json"), dir.join("report.json"));
+    let _ = std::fs::write(&case_f, serde_json::to_string(&json!({"case": cj()})).unwrap());
+    let exe = std::env::current_exe().expect("own path");
+    let child = std::process::Command::new(exe)
+        .args(["c07", "--replay", case_f.to_str().unwrap(), "--report", rep_f.to_str().unwrap()])
+        .env("VERIF_C07_CHILD", "1")
+        .stdout(std::process::Stdio::null())
+        .stderr(std::process::Stdio::piped())
+        .spawn();
+    local.count("configurations_probed_in_a_child_process", 1);
+    match child.and_then(|c| c.wait_with_output()) {
+        Err(e) => rep.machinery_error(&format!("cannot run the isolated probe: {e}")),
+        Ok(out) => {
+            let report: Option<Value> = std::fs::read_to_string(&rep_f).ok().and_then(|s| serde_json::from_str(&s).ok());
+            match (out.status.code(), report) {
+                (Some(0), Some(_)) => local.outcome("isolated_ok"),
+                (Some(1), Some(r)) => {
+                    for v in r["violations"].as_array().cloned().unwrap_or_default() {
+                        rep.violation(&format!("{}|isolated", v["class"].as_str().unwrap_or("?")), v["what"].as_str().unwrap_or(""), cj(), w);
+                    }
+                    local.outcome("isolated_violation");
+                }
+                (code, _) => {
+                    let err = String::from_utf8_lossy(&out.stderr);
+                    let tail: String = err.chars().rev().take(300).collect::<String>().chars().rev().collect();
+                    rep.violation(
+                        "accepted_config_kills_the_process",
+                        &format!("verified configuration: the encoding process died (exit {code:?}, {:?}): {}", out.status, tail.replace('\n', " ")),
+                        cj(),
+                        w,
+                    );
+                    local.outcome("isolated_died");
+                }
+            }
+        }
+    }
+    let _ = std::fs::remove_dir_all(&dir);
 }
 
 pub fn run(args: &Args, rep: &Arc<Report>) {
